@@ -21,6 +21,7 @@ import (
 	"github.com/trustbloc/sidetree-go/pkg/api/protocol"
 	"github.com/trustbloc/sidetree-go/pkg/document"
 	"github.com/trustbloc/sidetree-go/pkg/versions/1_0/doctransformer/didtransformer"
+	"github.com/trustbloc/sidetree-go/pkg/versions/1_0/doctransformer/doctransformer"
 )
 
 func b64stdDecode(v interface{}) ([]byte, error) {
@@ -89,6 +90,11 @@ type tCaseIn struct {
 	Services   int    `json:"services"`
 	Ops        []tOp  `json:"ops"`
 	Published  bool   `json:"published"`
+	InPub      bool   `json:"inPub"`
+	InUnpub    bool   `json:"inUnpub"`
+	InclPub    bool   `json:"inclPub"`
+	InclUnpub  bool   `json:"inclUnpub"`
+	Tr         string `json:"tr"`
 	Upd        bool   `json:"upd"`
 	Rec        bool   `json:"rec"`
 	Ao         int    `json:"ao"`
@@ -125,6 +131,8 @@ type tExpected struct {
 	Slots         []tSlot  `json:"slots"`
 	Deterministic bool     `json:"deterministic"`
 	Count         int      `json:"count"`
+	PubSlots      []tSlot  `json:"pubSlots"`
+	UnpubSlots    []tSlot  `json:"unpubSlots"`
 
 	Created            bool `json:"created"`
 	UpdatedP           bool `json:"updated"`
@@ -210,6 +218,8 @@ func transformReplay(args []string) {
 			k = fmt.Sprintf("keys:%v:base=%v:mctx=%v:svc=%d", c.Keys, c.Base, c.MethodCtx, c.Services)
 		case "ops":
 			k = fmt.Sprintf("ops:%v:published=%v", c.Ops, c.Published)
+		case "opts":
+			k = fmt.Sprintf("opts:%v:in=%v/%v:include=%v/%v:%s", c.Ops, c.InPub, c.InUnpub, c.InclPub, c.InclUnpub, c.Tr)
 		case "meta":
 			k = fmt.Sprintf("meta:%v,%v,%d,%v,%v,%d,%d,%v,%v,%v", c.Upd, c.Rec, c.Ao, c.Deact, c.Published, c.Created, c.Updated, c.Ver, c.Canonical, c.Equivalent)
 		}
@@ -624,6 +634,116 @@ func transformReplay(args []string) {
 
 			if exp.Deterministic && !(len(got) == 0 && len(exp.Slots) == 0) && !reflect.DeepEqual(got, exp.Slots) {
 				fail("operations", "", exp.Slots, got)
+			}
+		case "opts":
+			// the two lists hold the same requests in separate objects (as a store hands them out)
+			mk := func(published bool) []*operation.AnchoredOperation {
+				var l []*operation.AnchoredOperation
+
+				for i, o := range c.Ops {
+					a := &operation.AnchoredOperation{Type: operation.TypeUpdate, UniqueSuffix: "s", OperationRequest: []byte(fmt.Sprintf(`{"i":%d}`, i)),
+						TransactionTime: o.T, TransactionNumber: o.N}
+					if published {
+						a.CanonicalReference = fmt.Sprintf("ref%d", o.Ref)
+					}
+
+					l = append(l, a)
+				}
+
+				return l
+			}
+
+			rm := &protocol.ResolutionModel{Doc: document.Document{}}
+			if c.InPub {
+				rm.PublishedOperations = mk(true)
+			}
+
+			if c.InUnpub {
+				rm.UnpublishedOperations = mk(false)
+			}
+
+			var (
+				res *document.ResolutionResult
+				err error
+			)
+
+			info := protocol.TransformationInfo{"id": tDID, "published": true}
+
+			// (the options in either order: the order of two options of different names is immaterial)
+			if c.Tr == "doc" {
+				opts := []doctransformer.Option{doctransformer.WithIncludePublishedOperations(c.InclPub), doctransformer.WithIncludeUnpublishedOperations(c.InclUnpub)}
+				if len(c.Ops)%2 == 0 {
+					opts[0], opts[1] = opts[1], opts[0]
+				}
+
+				res, err = doctransformer.New(opts...).TransformDocument(rm, info)
+			} else {
+				opts := []didtransformer.Option{didtransformer.WithIncludePublishedOperations(c.InclPub), didtransformer.WithIncludeUnpublishedOperations(c.InclUnpub)}
+				if len(c.Ops)%2 == 0 {
+					opts[0], opts[1] = opts[1], opts[0]
+				}
+
+				res, err = didtransformer.New(opts...).TransformDocument(rm, info)
+			}
+
+			if err != nil {
+				fail("transform-error", err.Error(), nil, nil)
+				return
+			}
+
+			md := generic(res.DocumentMetadata).(map[string]interface{})
+			method, _ := md["method"].(map[string]interface{})
+
+			slotsOf := func(name string) []tSlot {
+				out := []tSlot{}
+				l, _ := method[name].([]interface{})
+
+				for _, x := range l {
+					m, _ := x.(map[string]interface{})
+					t, _ := m["transactionTime"].(float64)
+
+					// (unpublished operations do not report a transaction number: recover it from the request)
+					var r struct {
+						I int `json:"i"`
+					}
+
+					raw, _ := b64stdDecode(m["operation"])
+					_ = json.Unmarshal(raw, &r)
+
+					n := float64(-1)
+					if r.I >= 0 && r.I < len(c.Ops) {
+						n = float64(c.Ops[r.I].N)
+					}
+
+					if pn, ok := m["transactionNumber"].(float64); ok {
+						n = pn
+					}
+
+					out = append(out, tSlot{uint64(t), uint64(n)})
+				}
+
+				return out
+			}
+
+			gotPub, gotUnpub := slotsOf("publishedOperations"), slotsOf("unpublishedOperations")
+			col.sample(map[string]interface{}{"case": tc.C, "published": gotPub, "unpublished": gotUnpub})
+
+			norm := func(l []tSlot) []tSlot {
+				if l == nil {
+					return []tSlot{}
+				}
+
+				return l
+			}
+
+			if !reflect.DeepEqual(gotUnpub, norm(exp.UnpubSlots)) {
+				fail("operations", "unpublished operations listed (the include-unpublished option and the unpublished list decide, nothing else)", norm(exp.UnpubSlots), gotUnpub)
+				return
+			}
+
+			if len(gotPub) != len(exp.PubSlots) || (exp.Deterministic && !reflect.DeepEqual(gotPub, norm(exp.PubSlots))) {
+				fail("operations", "published operations listed (the include-published option and the published list decide, nothing else)", norm(exp.PubSlots), gotPub)
+				return
 			}
 		case "meta":
 			rm := &protocol.ResolutionModel{Doc: document.Document{}, Deactivated: c.Deact, CreatedTime: c.Created, UpdatedTime: c.Updated}
